@@ -71,6 +71,12 @@ fn frame_elems_invalid() -> Vec<(String, Vec<u8>)> {
     v.push(("DATA(oversize 4097)".into(), rc::frame_encode_declared(0, 4097, &[1, 2, 3])));
     v.push(("SETTINGS(oversize 2^62-1)".into(), rc::frame_encode_declared(4, rc::VARINT_MAX, &[])));
     v.push(("GREASE(oversize 70000)".into(), rc::frame_encode_declared(0x21, 70000, &[0; 8])));
+    // the payload limit applies to frames of unknown type as well, on every path: declared only, and with the payload present
+    for ty in [0x3fu64, 0x07, 0x424242] {
+        v.push((format!("UNKNOWN({ty:#x}, oversize 4097 declared)"), rc::frame_encode_declared(ty, 4097, &[0; 5])));
+        v.push((format!("UNKNOWN({ty:#x}, oversize 4097 present)"), rc::frame_encode(ty, &vec![0x00; 4097])));
+        v.push((format!("UNKNOWN({ty:#x}, 4096)"), rc::frame_encode(ty, &vec![0x00; 4096])));
+    }
     v
 }
 
